@@ -373,9 +373,19 @@ def link(state, address: int) -> bytes:
     return b""
 
 
+MAX_INCLUDE_DEPTH = 30
+
+
 @metacommand(size=0)
 def include(state, included_file_path: str):
     include_path = devices.resolve_relative_path(included_file_path, state["filename"])
+
+    if state["compiler"].include_depth >= MAX_INCLUDE_DEPTH:
+        reports.error(
+            "recursive-include",
+            (state["insn"].ctx_start, state["insn"].ctx_end, f"Files are included more than {MAX_INCLUDE_DEPTH} levels deep. Does '{include_path}' include itself?\nAdd '.once' to a file that is meant to be included only once.")
+        )
+        return b""
 
     try:
         with open(include_path, "r") as f:
